@@ -81,7 +81,7 @@ func Decode[T Tokener](b []byte, decFn codec.Decoder) (T, error) {
 
 // DecodeReader is the same as Decode, but accept an io.Reader.
 func DecodeReader[T Tokener](r io.Reader, decFn codec.Decoder) (T, error) {
-	node, err := ipld.DecodeStreaming(r, decFn)
+	node, err := DecodeStreaming(r, decFn)
 	if err != nil {
 		return *new(T), err
 	}
